@@ -400,7 +400,7 @@ mod bits {
 	pub trait OrdTag { const TAG: &'static str; }
 	impl OrdTag for Lsb0 { const TAG: &'static str = "lsb0"; }
 	impl OrdTag for Msb0 { const TAG: &'static str = "msb0"; }
-	impl<T: BitStore + Reg, O: BitOrder + OrdTag> Reg for BitVec<T, O> {
+	impl<T: BitStore<Unalias = T> + Reg, O: BitOrder + OrdTag> Reg for BitVec<T, O> {
 		fn name() -> String { format!("BitVec<{},{}>", T::name(), O::TAG) }
 		fn descr() -> Value { json!({"k":"bits","w":size_of::<T>(),"o":O::TAG,"sz":size_of::<Self>()}) }
 		fn gen(g: &mut G) -> Self {
@@ -420,15 +420,22 @@ mod bits {
 				bv.push((word >> (i % 64)) & 1 == 1);
 			}
 			bv.truncate(lead + n);
-			if lead > 0 { bv.drain(..lead); }
+			if lead > 0 {
+				// either shift the bits down (head offset 0) or keep the sub-slice's head offset inside its first element
+				if g.chance(1, 2) { bv.drain(..lead); } else { bv = BitVec::from_bitslice(&bv[lead..]); }
+			}
 			Some(bv)
 		}
 		fn abs(&self) -> Value { Value::Array(self.iter().map(|b| json!(if *b { 1 } else { 0 })).collect()) }
 	}
-	impl<T: BitStore + Reg, O: BitOrder + OrdTag> Reg for BitBox<T, O> {
+	impl<T: BitStore<Unalias = T> + Reg, O: BitOrder + OrdTag> Reg for BitBox<T, O> {
 		fn name() -> String { format!("BitBox<{},{}>", T::name(), O::TAG) }
 		fn descr() -> Value { json!({"k":"bits","w":size_of::<T>(),"o":O::TAG,"sz":size_of::<Self>()}) }
-		fn gen(g: &mut G) -> Self { BitVec::<T, O>::gen(g).into_boxed_bitslice() }
+		fn gen(g: &mut G) -> Self {
+			let v = BitVec::<T, O>::gen(g);
+			// a box made straight from a sub-slice keeps that slice's head offset
+			if g.chance(1, 2) && v.len() > 3 { let k = 1 + g.below(3); BitBox::from_bitslice(&v[k..]) } else { v.into_boxed_bitslice() }
+		}
 		fn gen_len(g: &mut G, n: usize) -> Option<Self> { BitVec::<T, O>::gen_len(g, n).map(|b| b.into_boxed_bitslice()) }
 		fn abs(&self) -> Value { Value::Array(self.iter().map(|b| json!(if *b { 1 } else { 0 })).collect()) }
 	}
